@@ -1,4 +1,306 @@
+/-
+C15 — information-content weights are conserved, counted once and monotone.
+
+`Model/Ic.lean` mirrors `wn/ic.py` (`_initialize`, `compute`) over exact
+rationals.  `touched g n s` is the agenda walk of `compute`; the theorems show it
+is exactly the set of `s` and its hypernym ancestors, each once, for every finite
+hypernym graph (trees, diamonds, deeper convergences, cycles), and derive the
+closed form of every weight from it.
+-/
+import Mathlib.Algebra.Order.Field.Basic
+import Mathlib.Algebra.Order.BigOperators.Group.List
+import Mathlib.Tactic.Linarith
+import Mathlib.Tactic.Ring
+import Mathlib.Tactic.Positivity
 import WnVerif.Model.Ic
+import WnVerif.Lemmas.Walk
 namespace WnVerif.Props.C15
-theorem placeholder_true : True := trivial
+open WnVerif.Graph WnVerif.Ic
+
+/-- the ancestor walk terminates (on cycles too) and visits exactly `s` and its
+ancestors, each once — "once per word synset however many hypernym paths converge" -/
+theorem C15_touched (g : Adj) (n : Nat) (hr : InRange g n) (s : Nat) (hs : s < n) :
+    (touched g n s).Nodup ∧ ∀ c, c ∈ touched g n s ↔ Reach g s c := by
+  obtain ⟨r, hw⟩ := walkFuel_suffices pushStack goodPush_stack g n hr [s] (by simpa using hs)
+  have ht : touched g n s = r := by simp [touched, hw]
+  rw [ht]
+  refine ⟨walk_nodup pushStack g _ _ _ r hw (by simp), ?_⟩
+  intro c
+  constructor
+  · intro hc
+    rcases walk_sound pushStack goodPush_stack g _ _ _ r hw c hc with h | ⟨x, hx, hxc⟩
+    · simp at h
+    · simp at hx; subst hx; exact hxc
+  · intro hc
+    exact walk_complete pushStack goodPush_stack g _ [s] r hw s (by simp) c hc
+
+/-- adding `w` along a duplicate-free list adds it exactly once to each member -/
+theorem foldl_addNode (w : Rat) : ∀ (L : List Nat) (f : Nat → Rat) (c : Nat), L.Nodup →
+    (L.foldl (fun f i => addNode f i w) f) c = f c + (if c ∈ L then w else 0) := by
+  intro L
+  induction L with
+  | nil => intro f c _; simp
+  | cons a t ih =>
+    intro f c hn
+    obtain ⟨hat, hnt⟩ := List.nodup_cons.mp hn
+    simp only [List.foldl_cons]
+    rw [ih _ c hnt]
+    by_cases hca : c = a
+    · subst hca; simp [addNode, hat]
+    · have : (c == a) = false := by simpa using hca
+      simp [addNode, this, hca]
+
+/-- contribution of one word synset `s` with weight `w` to the weight of `c` -/
+def contrib (g : Adj) (n : Nat) (pos : Nat → String) (w : Rat) (s c : Nat) : Rat :=
+  if (icPos (pos s)).isSome ∧ c ∈ touched g n s then w else 0
+
+/-- weight added to the total of part of speech `p` -/
+def contribTot (pos : Nat → String) (w : Rat) (s : Nat) (p : String) : Rat :=
+  if icPos (pos s) = some p then w else 0
+
+theorem addSynset_node (g : Adj) (n : Nat) (hr : InRange g n) (pos : Nat → String) (w : Rat)
+    (fr : Freq) (s : Nat) (hs : s < n) (c : Nat) :
+    (addSynset g n pos w fr s).node c = fr.node c + contrib g n pos w s c := by
+  unfold addSynset contrib
+  cases h : icPos (pos s) with
+  | none => simp
+  | some p =>
+    simp only [Option.isSome_some, true_and]
+    exact foldl_addNode w _ _ c (C15_touched g n hr s hs).1
+
+theorem addSynset_total (g : Adj) (n : Nat) (pos : Nat → String) (w : Rat)
+    (fr : Freq) (s : Nat) (p : String) :
+    (addSynset g n pos w fr s).total p = fr.total p + contribTot pos w s p := by
+  unfold addSynset contribTot
+  cases h : icPos (pos s) with
+  | none => simp
+  | some q =>
+    by_cases hqp : q = p
+    · subst hqp; simp [addTot]
+    · have h1 : (p == q) = false := by simpa using fun h => hqp h.symm
+      simp [addTot, h1, hqp]
+
+theorem foldl_addSynset_node (g : Adj) (n : Nat) (hr : InRange g n) (pos : Nat → String) (w : Rat) (c : Nat) :
+    ∀ (syns : List Nat) (fr : Freq), (∀ s ∈ syns, s < n) →
+    (syns.foldl (addSynset g n pos w) fr).node c = fr.node c + (syns.map (fun s => contrib g n pos w s c)).sum := by
+  intro syns
+  induction syns with
+  | nil => intro fr _; simp
+  | cons s t ih =>
+    intro fr hs
+    simp only [List.foldl_cons, List.map_cons, List.sum_cons]
+    rw [ih _ (fun x hx => hs x (List.mem_cons_of_mem _ hx)), addSynset_node g n hr pos w fr s (hs s (by simp))]
+    ring
+
+theorem foldl_addSynset_total (g : Adj) (n : Nat) (pos : Nat → String) (w : Rat) (p : String) :
+    ∀ (syns : List Nat) (fr : Freq),
+    (syns.foldl (addSynset g n pos w) fr).total p = fr.total p + (syns.map (fun s => contribTot pos w s p)).sum := by
+  intro syns
+  induction syns with
+  | nil => intro fr; simp
+  | cons s t ih =>
+    intro fr
+    simp only [List.foldl_cons, List.map_cons, List.sum_cons]
+    rw [ih, addSynset_total]; ring
+
+/-- the (optionally evenly distributed) count of a corpus word -/
+def wordWeight (distribute : Bool) (wc : Nat × List Nat) : Rat :=
+  if distribute then (wc.1 : Rat) / (wc.2.length : Rat) else (wc.1 : Rat)
+
+/-- what one corpus word adds to synset `c` / to the total of `p` (nothing for unknown words) -/
+def wordContrib (g : Adj) (n : Nat) (pos : Nat → String) (distribute : Bool) (wc : Nat × List Nat) (c : Nat) : Rat :=
+  (wc.2.map (fun s => contrib g n pos (wordWeight distribute wc) s c)).sum
+def wordContribTot (pos : Nat → String) (distribute : Bool) (wc : Nat × List Nat) (p : String) : Rat :=
+  (wc.2.map (fun s => contribTot pos (wordWeight distribute wc) s p)).sum
+
+theorem addWord_node (g : Adj) (n : Nat) (hr : InRange g n) (pos : Nat → String) (distribute : Bool)
+    (fr : Freq) (wc : Nat × List Nat) (hs : ∀ s ∈ wc.2, s < n) (c : Nat) :
+    (addWord g n pos distribute fr wc).node c = fr.node c + wordContrib g n pos distribute wc c := by
+  obtain ⟨count, syns⟩ := wc
+  unfold addWord wordContrib
+  simp only
+  split
+  · rename_i he; simp [List.isEmpty_iff] at he; simp [he]
+  · exact foldl_addSynset_node g n hr pos _ c syns fr hs
+
+theorem addWord_total (g : Adj) (n : Nat) (pos : Nat → String) (distribute : Bool)
+    (fr : Freq) (wc : Nat × List Nat) (p : String) :
+    (addWord g n pos distribute fr wc).total p = fr.total p + wordContribTot pos distribute wc p := by
+  obtain ⟨count, syns⟩ := wc
+  unfold addWord wordContribTot
+  simp only
+  split
+  · rename_i he; simp [List.isEmpty_iff] at he; simp [he]
+  · exact foldl_addSynset_total g n pos _ p syns fr
+
+/-- **C15_once**: every synset weight is smoothing + the sum, over corpus words and
+their synsets, of the word's weight whenever the synset is the word synset itself or
+one of its hypernym ancestors — once per word synset. -/
+theorem C15_once (g : Adj) (n : Nat) (hr : InRange g n) (pos : Nat → String) (distribute : Bool)
+    (smoothing : Rat) (words : List (Nat × List Nat)) (hw : ∀ wc ∈ words, ∀ s ∈ wc.2, s < n) (c : Nat) :
+    (compute g n pos distribute smoothing words).node c =
+      smoothing + (words.map (fun wc => wordContrib g n pos distribute wc c)).sum := by
+  unfold compute
+  have key : ∀ (ws : List (Nat × List Nat)) (fr : Freq), (∀ wc ∈ ws, ∀ s ∈ wc.2, s < n) →
+      (ws.foldl (addWord g n pos distribute) fr).node c =
+        fr.node c + (ws.map (fun wc => wordContrib g n pos distribute wc c)).sum := by
+    intro ws
+    induction ws with
+    | nil => intro fr _; simp
+    | cons wc t ih =>
+      intro fr h
+      simp only [List.foldl_cons, List.map_cons, List.sum_cons]
+      rw [ih _ (fun x hx => h x (List.mem_cons_of_mem _ hx)), addWord_node g n hr pos distribute fr wc (h wc (by simp))]
+      ring
+  rw [key words _ hw]; rfl
+
+/-- **C15_total**: each part of speech gets smoothing + the sum of the weights of the
+corpus words' synsets of that part of speech (satellite adjectives count as adjectives,
+words not found contribute nothing). -/
+theorem C15_total (g : Adj) (n : Nat) (pos : Nat → String) (distribute : Bool)
+    (smoothing : Rat) (words : List (Nat × List Nat)) (p : String) :
+    (compute g n pos distribute smoothing words).total p =
+      smoothing + (words.map (fun wc => wordContribTot pos distribute wc p)).sum := by
+  unfold compute
+  have key : ∀ (ws : List (Nat × List Nat)) (fr : Freq),
+      (ws.foldl (addWord g n pos distribute) fr).total p =
+        fr.total p + (ws.map (fun wc => wordContribTot pos distribute wc p)).sum := by
+    intro ws
+    induction ws with
+    | nil => intro fr; simp
+    | cons wc t ih =>
+      intro fr
+      simp only [List.foldl_cons, List.map_cons, List.sum_cons]
+      rw [ih, addWord_total]; ring
+  rw [key words _]; rfl
+
+theorem C15_sat_as_adj : icPos "s" = some "a" ∧ icPos "a" = some "a" := by decide
+
+theorem C15_unknown_ignored (g : Adj) (n : Nat) (pos : Nat → String) (distribute : Bool) (fr : Freq)
+    (count : Nat) : addWord g n pos distribute fr (count, []) = fr := by
+  simp [addWord]
+
+theorem wordWeight_nonneg (distribute : Bool) (wc : Nat × List Nat) : 0 ≤ wordWeight distribute wc := by
+  unfold wordWeight
+  split <;> positivity
+
+/-- **C15_monotone**: weights never decrease going up the taxonomy. -/
+theorem C15_monotone (g : Adj) (n : Nat) (hr : InRange g n) (pos : Nat → String) (distribute : Bool)
+    (smoothing : Rat) (words : List (Nat × List Nat)) (hw : ∀ wc ∈ words, ∀ s ∈ wc.2, s < n)
+    (c h : Nat) (hch : h ∈ g c) :
+    (compute g n pos distribute smoothing words).node c ≤
+      (compute g n pos distribute smoothing words).node h := by
+  rw [C15_once g n hr pos distribute smoothing words hw c, C15_once g n hr pos distribute smoothing words hw h]
+  have hmono : ∀ wc ∈ words, wordContrib g n pos distribute wc c ≤ wordContrib g n pos distribute wc h := by
+    intro wc hwc
+    unfold wordContrib
+    apply List.sum_le_sum
+    intro s hs
+    unfold contrib
+    have hsn := hw wc hwc s hs
+    have hiff := (C15_touched g n hr s hsn).2
+    by_cases hc : (icPos (pos s)).isSome ∧ c ∈ touched g n s
+    · have : (icPos (pos s)).isSome ∧ h ∈ touched g n s :=
+        ⟨hc.1, (hiff h).mpr (Reach.step ((hiff c).mp hc.2) hch)⟩
+      simp [hc, this]
+    · simp only [hc, if_false]
+      split
+      · exact wordWeight_nonneg distribute wc
+      · exact le_refl _
+  have := List.sum_le_sum (l := words) hmono
+  linarith
+
+/-- the hypernym relation stays inside one (a/s-folded) part of speech -/
+def PosClosed (g : Adj) (pos : Nat → String) : Prop := ∀ c h, h ∈ g c → icPos (pos h) = icPos (pos c)
+
+theorem posClosed_reach (g : Adj) (pos : Nat → String) (hp : PosClosed g pos) {s c : Nat}
+    (h : Reach g s c) : icPos (pos c) = icPos (pos s) := by
+  induction h with
+  | refl => rfl
+  | step _ hz ih => rw [hp _ _ hz, ih]
+
+/-- **C15_prob_range**: a synset's weight never exceeds the total of its part of speech,
+so with smoothing > 0 the synset probability lies in (0, 1]. -/
+theorem C15_le_total (g : Adj) (n : Nat) (hr : InRange g n) (pos : Nat → String) (hp : PosClosed g pos)
+    (distribute : Bool) (smoothing : Rat) (words : List (Nat × List Nat))
+    (hw : ∀ wc ∈ words, ∀ s ∈ wc.2, s < n) (c : Nat) (p : String) (hc : icPos (pos c) = some p) :
+    (compute g n pos distribute smoothing words).node c ≤
+      (compute g n pos distribute smoothing words).total p := by
+  rw [C15_once g n hr pos distribute smoothing words hw c, C15_total]
+  have hle : ∀ wc ∈ words, wordContrib g n pos distribute wc c ≤ wordContribTot pos distribute wc p := by
+    intro wc hwc
+    unfold wordContrib wordContribTot
+    apply List.sum_le_sum
+    intro s hs
+    unfold contrib contribTot
+    have hiff := (C15_touched g n hr s (hw wc hwc s hs)).2
+    by_cases h1 : (icPos (pos s)).isSome ∧ c ∈ touched g n s
+    · have : icPos (pos s) = some p := by
+        rw [← posClosed_reach g pos hp ((hiff c).mp h1.2)]; exact hc
+      simp [h1, this]
+    · simp only [h1, if_false]
+      split
+      · exact wordWeight_nonneg distribute wc
+      · exact le_refl _
+  have := List.sum_le_sum (l := words) hle
+  linarith
+
+theorem C15_weight_pos (g : Adj) (n : Nat) (hr : InRange g n) (pos : Nat → String) (distribute : Bool)
+    (smoothing : Rat) (hsm : 0 < smoothing) (words : List (Nat × List Nat))
+    (hw : ∀ wc ∈ words, ∀ s ∈ wc.2, s < n) (c : Nat) :
+    0 < (compute g n pos distribute smoothing words).node c := by
+  rw [C15_once g n hr pos distribute smoothing words hw c]
+  have : 0 ≤ (words.map (fun wc => wordContrib g n pos distribute wc c)).sum := by
+    apply List.sum_nonneg
+    intro x hx
+    obtain ⟨wc, _, rfl⟩ := List.mem_map.mp hx
+    unfold wordContrib
+    apply List.sum_nonneg
+    intro y hy
+    obtain ⟨s, _, rfl⟩ := List.mem_map.mp hy
+    unfold contrib
+    split
+    · exact wordWeight_nonneg distribute wc
+    · exact le_refl _
+  linarith
+
+/-- synset probability in (0, 1] -/
+theorem C15_prob_range (g : Adj) (n : Nat) (hr : InRange g n) (pos : Nat → String) (hp : PosClosed g pos)
+    (distribute : Bool) (smoothing : Rat) (hsm : 0 < smoothing) (words : List (Nat × List Nat))
+    (hw : ∀ wc ∈ words, ∀ s ∈ wc.2, s < n) (c : Nat) (p : String) (hc : icPos (pos c) = some p) :
+    let fr := compute g n pos distribute smoothing words
+    0 < fr.node c / fr.total p ∧ fr.node c / fr.total p ≤ 1 := by
+  intro fr
+  have h1 := C15_weight_pos g n hr pos distribute smoothing hsm words hw c
+  have h2 := C15_le_total g n hr pos hp distribute smoothing words hw c p hc
+  have h3 : 0 < fr.total p := lt_of_lt_of_le h1 h2
+  exact ⟨div_pos h1 h3, (div_le_one h3).mpr h2⟩
+
+/-- information content −log p is non-negative and antitone along hypernymy: stated on
+the probabilities (−log is antitone): the hypernym's probability is the larger one. -/
+theorem C15_prob_monotone (g : Adj) (n : Nat) (hr : InRange g n) (pos : Nat → String) (hp : PosClosed g pos)
+    (distribute : Bool) (smoothing : Rat) (hsm : 0 < smoothing) (words : List (Nat × List Nat))
+    (hw : ∀ wc ∈ words, ∀ s ∈ wc.2, s < n) (c h : Nat) (hch : h ∈ g c) (p : String)
+    (hc : icPos (pos c) = some p) :
+    let fr := compute g n pos distribute smoothing words
+    fr.node c / fr.total p ≤ fr.node h / fr.total p := by
+  intro fr
+  have h1 := C15_weight_pos g n hr pos distribute smoothing hsm words hw c
+  have h2 := C15_le_total g n hr pos hp distribute smoothing words hw c p hc
+  have h3 : 0 < fr.total p := lt_of_lt_of_le h1 h2
+  exact div_le_div_of_nonneg_right (C15_monotone g n hr pos distribute smoothing words hw c h hch) (le_of_lt h3)
+
+/-- non-vacuity: the diamond 0→1, 0→2, 1→3, 2→3 with the word synset 0 — the root 3 is
+reached along two paths and still receives the weight once (2 = smoothing 1 + 1). -/
+def diamond : Adj := fun i => match i with
+  | 0 => [1, 2]
+  | 1 => [3]
+  | 2 => [3]
+  | _ => []
+
+theorem C15_diamond_once :
+    (compute diamond 4 (fun _ => "n") true 1 [(1, [0])]).node 3 = 2 ∧
+    (compute diamond 4 (fun _ => "n") true 1 [(1, [0])]).total "n" = 2 := by
+  decide +kernel
+
 end WnVerif.Props.C15
